@@ -1,1 +1,156 @@
 //! verification hooks used by the check of property C23
+//!
+//! `module_items_sexpr(module, names)`: the untyped AST, as the real parser produces it from the module
+//! source embedded in the crate, of the named `fn` / `let` items, printed as S-expressions for the
+//! translator `tools/gen_nbt_functions.py` of /verif:
+//!
+//!   (fn NAME (params (P TYPE) ...) RET BODY (where (V TYPE EXPR) ...))     BODY = - for foreign functions
+//!   (let NAME TYPE EXPR)                                                    TYPE = - if not annotated
+//!   EXPR ::= (scalar HEX16) | (id NAME) | (neg E) | (OP E E) | (OP~ E E)    OP = Add Sub Mul Div Power ConvertTo
+//!          | (call F E ...) | (if E E E) | (list E ...) | (bool B)             LessThan ... ; `~` = implicit
+//!          | (str HEX.HEX...) | (unsupported KIND)
+//! TYPE is the pretty-printed annotation without blanks.  Read-only.
+
+use crate::ast::{DefineVariable, Expression, Statement, StringPart, TypeAnnotation, UnaryOperator};
+use crate::module_importer::{BuiltinModuleImporter, ModuleImporter};
+use crate::pretty_print::PrettyPrint;
+use crate::resolver::ModulePath;
+
+fn ty(t: &Option<TypeAnnotation>) -> String {
+    match t {
+        Some(t) => t.pretty_print().to_string().replace(' ', ""),
+        None => "-".to_string(),
+    }
+}
+
+fn expr(e: &Expression) -> String {
+    match e {
+        Expression::Scalar(_, n) => format!("(scalar {:016x})", n.to_f64().to_bits()),
+        Expression::Identifier(_, name) => format!("(id {name})"),
+        Expression::UnaryOperator {
+            op: UnaryOperator::Negate,
+            expr: inner,
+            ..
+        } => format!("(neg {})", expr(inner)),
+        Expression::BinaryOperator {
+            op,
+            lhs,
+            rhs,
+            span_op,
+        } => format!(
+            "({:?}{} {} {})",
+            op,
+            if span_op.is_none() { "~" } else { "" },
+            expr(lhs),
+            expr(rhs)
+        ),
+        Expression::FunctionCall { callable, args, .. } => {
+            let mut s = format!("(call {}", expr(callable));
+            for a in args {
+                s.push(' ');
+                s.push_str(&expr(a));
+            }
+            s.push(')');
+            s
+        }
+        Expression::Boolean(_, b) => format!("(bool {b})"),
+        Expression::Condition {
+            condition,
+            then_expr,
+            else_expr,
+            ..
+        } => format!("(if {} {} {})", expr(condition), expr(then_expr), expr(else_expr)),
+        Expression::List(_, es) => {
+            let mut s = "(list".to_string();
+            for e in es {
+                s.push(' ');
+                s.push_str(&expr(e));
+            }
+            s.push(')');
+            s
+        }
+        Expression::String(_, parts) => {
+            let mut s = "(str".to_string();
+            for p in parts {
+                match p {
+                    StringPart::Fixed(t) => {
+                        s.push(' ');
+                        s.push_str(
+                            &t.chars()
+                                .map(|c| format!("{:x}", c as u32))
+                                .collect::<Vec<_>>()
+                                .join("."),
+                        );
+                    }
+                    StringPart::Interpolation { .. } => s.push_str(" (unsupported Interpolation)"),
+                }
+            }
+            s.push(')');
+            s
+        }
+        Expression::UnaryOperator { .. } => "(unsupported UnaryOperator)".to_string(),
+        Expression::UnitIdentifier { .. } => "(unsupported UnitIdentifier)".to_string(),
+        Expression::TypedHole(_) => "(unsupported TypedHole)".to_string(),
+        Expression::InstantiateStruct { .. } => "(unsupported InstantiateStruct)".to_string(),
+        Expression::AccessField { .. } => "(unsupported AccessField)".to_string(),
+    }
+}
+
+fn define_variable(d: &DefineVariable) -> String {
+    format!("({} {} {})", d.identifier, ty(&d.type_annotation), expr(&d.expr))
+}
+
+/// `(name, s-expression)` of every requested item found in the module, in source order
+pub fn module_items_sexpr(module: &str, names: &[&str]) -> Result<Vec<(String, String)>, String> {
+    let path = ModulePath(module.split("::").map(|s| s.into()).collect());
+    let (code, _) = BuiltinModuleImporter::default()
+        .import(&path)
+        .ok_or_else(|| format!("unknown module {module}"))?;
+    let stmts = crate::parser::parse(&code, 0).map_err(|(_, errs)| {
+        format!(
+            "parse errors in {module}: {}",
+            errs.iter().map(|e| e.to_string()).collect::<Vec<_>>().join("; ")
+        )
+    })?;
+    let mut out = Vec::new();
+    for s in &stmts {
+        match s {
+            Statement::DefineFunction {
+                function_name,
+                parameters,
+                body,
+                local_variables,
+                return_type_annotation,
+                ..
+            } if names.contains(function_name) => {
+                let params: String = parameters
+                    .iter()
+                    .map(|(_, n, t)| format!(" ({n} {})", ty(t)))
+                    .collect();
+                let wh: String = local_variables
+                    .iter()
+                    .map(|d| format!(" {}", define_variable(d)))
+                    .collect();
+                out.push((
+                    function_name.to_string(),
+                    format!(
+                        "(fn {function_name} (params{params}) {} {} (where{wh}))",
+                        ty(return_type_annotation),
+                        match body {
+                            Some(b) => expr(b),
+                            None => "-".to_string(),
+                        }
+                    ),
+                ));
+            }
+            Statement::DefineVariable(d) if names.contains(&d.identifier) => {
+                out.push((
+                    d.identifier.to_string(),
+                    format!("(let {} {} {})", d.identifier, ty(&d.type_annotation), expr(&d.expr)),
+                ));
+            }
+            _ => {}
+        }
+    }
+    Ok(out)
+}
